@@ -22,18 +22,21 @@ META = {
 }
 
 SOLO_Q = dict(Threads={1}, SharedS={1}, LocalS=set(), MaxItems=3, MaxCmds=3, MaxBody=2, RelD={1, 2}, AbsT={0, 2}, SleepD={1},
-              NegRel=True, ClockMode="jump", MaxClock=0, Record=True)
-SOLO_T = dict(SOLO_Q, MaxItems=4, MaxCmds=4, NegRel=True)
-SOLO_SIM = dict(SOLO_Q, MaxItems=6, MaxCmds=7, MaxBody=3, RelD={1, 2, 3}, AbsT={0, 1, 3})
+              NegRel=True, ClockMode="jump", MaxClock=0, Record=True, Req=False)
+# deeper but narrower: four commands (e.g. an action cancelling a sibling that is already due), fewer kinds
+DEEP_Q = dict(SOLO_Q, MaxCmds=4, MaxItems=3, RelD={1}, AbsT=set(), NegRel=False, SleepD=set())
+DEEP_T = dict(SOLO_Q, MaxCmds=5, MaxItems=4, RelD={1}, AbsT=set(), NegRel=False, SleepD=set())
+SOLO_T = dict(SOLO_Q, MaxItems=4, MaxCmds=4, NegRel=True, Req=True)
+SOLO_SIM = dict(SOLO_Q, Req=True, MaxItems=6, MaxCmds=7, MaxBody=3, RelD={1, 2, 3}, AbsT={0, 1, 3})
 MIXED_Q = dict(Threads={1}, SharedS={1}, LocalS={2}, MaxItems=3, MaxCmds=3, MaxBody=2, RelD={1}, AbsT=set(), SleepD={1},
-               NegRel=False, ClockMode="jump", MaxClock=0, Record=True)
+               NegRel=False, ClockMode="jump", MaxClock=0, Record=True, Req=True)
 MIXED_T = dict(MIXED_Q, LocalS={2, 3})
 MIXED_SIM = dict(MIXED_T, MaxItems=6, MaxCmds=7, MaxBody=3, RelD={1, 2}, AbsT={0, 2}, NegRel=True)
 DESIGN_Q = dict(Threads={1, 2}, SharedS={1}, LocalS={2}, MaxItems=2, MaxCmds=2, MaxBody=1, RelD={1}, AbsT=set(), SleepD=set(),
-                NegRel=False, ClockMode="tick", MaxClock=0, Record=False)
-DESIGN_T = dict(DESIGN_Q, MaxItems=3, MaxCmds=3, MaxClock=1)
+                NegRel=False, ClockMode="tick", MaxClock=0, Record=False, Req=False)
+DESIGN_T = dict(DESIGN_Q, MaxItems=3, MaxCmds=3, MaxClock=1, Req=True)
 CONC_GEN = dict(Threads={1, 2}, SharedS={1}, LocalS={2, 3}, MaxItems=4, MaxCmds=5, MaxBody=2, RelD={1, 2}, AbsT={0}, SleepD=set(),
-                NegRel=False, ClockMode="tick", MaxClock=1, Record=True)
+                NegRel=False, ClockMode="tick", MaxClock=1, Record=True, Req=True)
 CONC_GEN3 = dict(CONC_GEN, Threads={1, 2, 3}, MaxItems=5, MaxCmds=6)
 DESIGN_NEED = ("Lin", "Commit", "Start", "End", "Release", "Ret", "Tick", "GenSched", "GenCancel")
 SOLO_NEED = ("Lin", "Commit", "Start", "End", "Release", "Ret", "Jump", "Discard", "GenSched", "GenCancel", "GenSleep")
@@ -105,12 +108,14 @@ def run(tier: str) -> int:
     try:
         with ThreadPoolExecutor(6) as tp:
             f_solo = tp.submit(_export, SOLO_Q if quick else SOLO_T, "export one thread, one scheduler", None, 0, SOLO_NEED)
-            f_mixed = tp.submit(_export, MIXED_Q if quick else MIXED_T, "export one thread, mixed schedulers")
+            f_mixed = tp.submit(_export, MIXED_Q if quick else MIXED_T, "export one thread, mixed schedulers", None, 0,
+                                ("GenReq", "LinReq", "Commit", "Release", "Jump"))
+            f_deep = tp.submit(_export, DEEP_Q if quick else DEEP_T, "export one thread, one scheduler, deeper / fewer kinds")
             f_design = tp.submit(_design, DESIGN_Q if quick else DESIGN_T, "design: all interleavings, 2 threads, free clock", 3 if quick else 4)
             f_gen = tp.submit(_export, CONC_GEN, "generate 2-thread programs", f"num={20 if quick else 400}", ck.seed + 11)
             impl_c = dict(Threads={1, 2}, NTop=1, Nest=True, Delays={0} if quick else {0, 1}, MaxClock=1)
             f_impl_fixed = tp.submit(_impl, dict(impl_c, Fixed=True), "lock-granularity model, repaired algorithm, 2 threads", 2, True)
-            f_impl_asis = tp.submit(_impl, dict(impl_c, Fixed=False), "lock-granularity model, algorithm of the pinned tree, 2 threads", 2, False)
+            f_impl_asis = None if quick else tp.submit(_impl, dict(impl_c, Fixed=False), "lock-granularity model, algorithm of the pinned tree, 2 threads", 2, False)
             f_impl3 = None if quick else tp.submit(_impl, dict(impl_c, Threads={1, 2, 3}, Nest=False, Fixed=True),
                                                    "lock-granularity model, repaired algorithm, 3 threads", 4, True)
             f_gen3 = None if quick else tp.submit(_export, CONC_GEN3, "generate 3-thread programs", "num=150", ck.seed + 12)
@@ -124,20 +129,24 @@ def run(tier: str) -> int:
             rnd = random.Random(ck.seed)
             rnd.shuffle(progs2)
             bound = 2 if quick else 3
-            cap, nrand = (10, 2) if quick else (400, 60)
-            jobs = [(p, "own", bound, cap, nrand, ck.seed) for p in tc.directed_programs(2)]
-            jobs += [(p, "own", bound, cap, nrand, ck.seed) for p in progs2[: (6 if quick else 150)]]
+            cap, nrand = (8, 2) if quick else (200, 40)
+            def capof(p):      # cross-thread races live on the shared trampoline: spend the schedule budget there
+                shared = any(c["s"] == 1 for t in p["top"] for c in t) or any(c["s"] == 1 for b in p["body"] for c in b)
+                return cap * 2 if shared else max(4, cap // 2)
+            jobs = [(p, "own", bound, capof(p), nrand, ck.seed) for p in tc.directed_programs(2)]
+            jobs += [(p, "own", bound, capof(p), nrand, ck.seed) for p in progs2[: (6 if quick else 80)]]
             jobs += [(p, "passed", bound, cap, nrand, ck.seed) for p in tc.directed_programs(2)[:: (4 if quick else 1)]]
+            jobs += [(p, "own", 2, cap, nrand, ck.seed) for p in tc.directed_programs(3)[-2:-1]]     # three threads, one shared trampoline
             if not quick:
                 res3, label3 = f_gen3.result()
                 ck.add_tlc(res3, label3)
                 progs3 = [p for p in _uniq_programs(res3.lines) if sum(1 for t in p["top"] if t) >= 3]
-                jobs += [(p, "own", 2, 300, 40, ck.seed) for p in tc.directed_programs(3)[-2:] + progs3[:40]]
+                jobs += [(p, "own", 2, 150, 20, ck.seed) for p in tc.directed_programs(3)[-1:] + progs3[:20]]
             a_conc = pool.map_async(tc.explore_program, jobs, chunksize=1)
 
             # ---- Binding A: one-thread programs
             solo_lines = []
-            for f in [f_solo, f_mixed] + f_sims:
+            for f in [f_solo, f_deep, f_mixed] + f_sims:
                 res, label = f.result()
                 ck.add_tlc(res, label)
                 kinds = ("mixed",) if "mixed" in label or "three schedulers" in label else tc.SOLO_KINDS
@@ -193,11 +202,32 @@ def run(tier: str) -> int:
                     seen.add(k)
                     uniq_solo.append((tr, ctx))
             ck.note("wall_s_until_traces_recorded", round(time.time() - ck.t0, 1))
-            f_v1 = tp.submit(tc.validate_traces, ck, conc_items, "concurrent", 60 if quick else 400)
-            f_v2 = tp.submit(tc.validate_traces, ck, uniq_solo, "one-thread", 300 if quick else 800)
-            f_v1.result()
-            f_v2.result()
+            if quick:      # one JVM for everything: start-up dominates on a loaded box
+                tc.validate_traces(ck, conc_items + uniq_solo, "concurrent + one-thread", 1000)
+            else:
+                f_v1 = tp.submit(tc.validate_traces, ck, conc_items, "concurrent", 400)
+                f_v2 = tp.submit(tc.validate_traces, ck, uniq_solo, "one-thread", 800)
+                f_v1.result()
+                f_v2.result()
             ck.note("one_thread_traces_validated", len(uniq_solo))
+            if not quick:
+                # binding self-test: corrupted copies of accepted traces must be rejected (else the trace spec is vacuous)
+                bad = tc.corrupt([t for t, _ in (conc_items + uniq_solo)[:: max(1, len(conc_items + uniq_solo) // 150)]], ck.seed)
+
+                class _Sink:
+                    def __init__(self):
+                        self.n = 0
+
+                    def add_tlc(self, r, label):
+                        ck.add_tlc(r, label)
+
+                    def fail(self, rec):
+                        self.n += 1
+                sink = _Sink()
+                tc.validate_traces(sink, [(t, {}) for t, _ in bad], "self-test: corrupted traces", 800)
+                ck.note("selftest_corrupted_traces", {"made": len(bad), "rejected": sink.n, "kinds": sorted({k for _, k in bad})})
+                if sink.n != len(bad):
+                    raise tlc.TLCFailure(f"trace spec accepted {len(bad) - sink.n} corrupted traces")
             res, label = f_design.result()
             ck.add_tlc(res, label)
             ck.note("design_coverage", {k: v for k, v in res.coverage.items() if k in DESIGN_NEED})
@@ -210,15 +240,16 @@ def run(tier: str) -> int:
                 dead = [a for a in ("r_enq", "r_branch", "r_drain", "d_collect", "d_invoke", "d_end", "d_check") if res.coverage.get(a, 0) == 0]
                 if dead:
                     raise tlc.TLCFailure(f"{label}: labels never reached {dead}")
-            res, label = f_impl_asis.result()
-            ck.add_tlc(res, label)
-            ck.note("lock_granularity_model_of_pinned_algorithm", "violates " + str(res.violated) if not res.ok else "holds")
             lost = ck.known_hits.get("C30-shared-trampoline-lost-action", 0) + sum(
                 1 for v in ck.violations if v.get("failure") in ("returned_with_work_pending", "lost_action"))
             ck.note("lock_granularity_variant_matching_the_observed_executions",
                     "pinned algorithm (Fixed=FALSE): an execution of the real code lost an action" if lost else
                     "repaired algorithm (Fixed=TRUE): no execution of the real code lost an action")
-            if lost and res.ok:
+            if f_impl_asis is not None:
+                res, label = f_impl_asis.result()
+                ck.add_tlc(res, label)
+                ck.note("lock_granularity_model_of_pinned_algorithm", "violates " + str(res.violated) if not res.ok else "holds")
+            if f_impl_asis is not None and lost and res.ok:
                 ck.drift("the real code lost an action but TrampolineImpl(Fixed=FALSE) does not: the design model no longer describes the code")
     finally:
         pool.terminate()
